@@ -37,6 +37,18 @@ def scan_callers(db, names):
     return out
 
 
+def resolve_val(p, t):
+    """a named local / temporary stands for the value it holds"""
+    for _ in range(4):
+        if isinstance(t, tuple) and t[:1] in (("var",), ("tmp",)) and p.state.mem.get(t) is not None:
+            t = p.state.mem.get(t)
+        else:
+            break
+    if isinstance(t, tuple) and t[:1] == ("addr",) and isinstance(t[1], tuple) and t[1][:1] == ("fn",):
+        t = t[1]  # `&f` and `f` designate the same function
+    return t
+
+
 def finder_functions(db):
     """the function(s) handed to the backend's context-free translations as 'find the sandbox that owns this address' - identified by
     that use, not by name"""
@@ -50,8 +62,9 @@ def finder_functions(db):
             continue
         for p in ps:
             for e in p.events:
-                if e.kind == "CALL" and q.short(e.a) == ENTRY[f["sn"]][0] and len(e.b) >= 3 and isinstance(e.b[2], tuple) and e.b[2][:1] == ("fn",):
-                    g = db.fn_by_id.get(e.b[2][2]) if len(e.b[2]) > 2 else None
+                fv = resolve_val(p, e.b[2]) if e.kind == "CALL" and len(e.b) >= 3 else None
+                if e.kind == "CALL" and q.short(e.a) == ENTRY[f["sn"]][0] and isinstance(fv, tuple) and fv[:1] == ("fn",):
+                    g = db.fn_by_id.get(fv[2]) if len(fv) > 2 else None
                     if g is not None:
                         out[g["id"]] = g
     return out
@@ -141,7 +154,8 @@ def check_entry(rep, db, f, inst):
                 return
             if obj is None:
                 ex = ("p", f["params"][1]["n"])
-                if len(e.b) < 3 or e.b[1] != ex or not (isinstance(e.b[2], tuple) and e.b[2][:1] == ("fn",) and e.b[2][1].split("<")[0].startswith(SB)):
+                fv = resolve_val(p, e.b[2]) if len(e.b) >= 3 else None
+                if len(e.b) < 3 or e.b[1] != ex or not (isinstance(fv, tuple) and fv[:1] == ("fn",) and fv[1].split("<")[0].startswith(SB)):
                     rep.violation(rule, site(f), "the context-free translation does not forward the example address and the sandbox finder", f["loc"], inst)
                     return
             if strip_casts(p.retval) != (e.extra or {}).get("ret"):
